@@ -9,6 +9,7 @@ package storage
 import (
 	"bytes"
 	"fmt"
+	"os"
 	"sort"
 	"sync"
 	"time"
@@ -556,17 +557,63 @@ func (w *verifWalker) tree(name string, root uint64) {
 	}
 }
 
+// VerifReplaceCache gives the store a fresh, empty page cache of the given
+// capacity. Only legal when no page is dirty (right after a flush): every page
+// is then re-read from the data file on demand.
+func VerifReplaceCache(rs *RelationService, capacity int) {
+	for _, v := range rs.fs.cache.cache {
+		if v.Value.(*cacheEntry).val.isDirty() {
+			panic("VerifReplaceCache: the cache holds a dirty page")
+		}
+	}
+	rs.fs.cache = NewLRU(capacity)
+}
+
 // VerifWalk checks the shape invariants of every tree of the database (the
 // catalog trees and every table), starting from the header's catalog root.
 func VerifWalk(rs *RelationService) (problems []string, stats VerifTreeStats) {
-	w := &verifWalker{fs: rs.fs, visited: map[uint64]string{}}
+	w := verifWalkStore(rs.fs)
+	return w.problems, w.stats
+}
+
+// VerifOwners maps every page reachable from the catalog of a data file image
+// (the bytes of a tbl file) to the name of the tree it belongs to. The image is
+// read through a private store without flusher or registration.
+func VerifOwners(image []byte, scratchDir string) (owners map[uint64]string, err error) {
+	f, err := os.CreateTemp(scratchDir, "owners-*")
+	if err != nil {
+		return nil, err
+	}
+	defer os.Remove(f.Name())
+	defer f.Close()
+	if _, err := f.Write(image); err != nil {
+		return nil, err
+	}
+	if _, err := f.Seek(0, 0); err != nil {
+		return nil, err
+	}
+	fs := &fileStore{cache: NewLRU(10000), file: f}
+	if err := fs.open(); err != nil {
+		return nil, err
+	}
+	defer func() {
+		if x := recover(); x != nil {
+			owners, err = nil, fmt.Errorf("walk of the image failed: %v", x)
+		}
+	}()
+	w := verifWalkStore(fs)
+	return w.visited, nil
+}
+
+func verifWalkStore(fs *fileStore) (w *verifWalker) {
+	w = &verifWalker{fs: fs, visited: map[uint64]string{}}
+	rs := &RelationService{fs: fs}
 	defer func() {
 		if x := recover(); x != nil {
 			if _, ok := x.(VerifFuelExhausted); ok {
 				panic(x)
 			}
 			w.bad("walker panicked: %v", x)
-			problems, stats = w.problems, w.stats
 		}
 	}()
 	w.tree(pageTableName, rs.fs.pageTableRoot)
@@ -602,7 +649,7 @@ func VerifWalk(rs *RelationService) (problems []string, stats VerifTreeStats) {
 		w.tree(e.name, e.off)
 	}
 	w.stats.Shape = w.shape.String()
-	return w.problems, w.stats
+	return w
 }
 
 // VerifPageDump returns a logical dump of every page reachable from the
